@@ -14,7 +14,12 @@ import (
 	"golang.org/x/tools/go/ssa"
 )
 
-func init() { register("C15", propC15) }
+func init() {
+	register("C15", func(w *World, r *Report, tier string) {
+		propC15(w, r, tier)
+		importStateless(w, r, tier, []string{"nasType/qos_rule.go", "nasType/qos_flow_desc.go"}, "QoS codecs")
+	})
+}
 
 type factoryArm struct {
 	K   int64
